@@ -1,6 +1,6 @@
 (** C15 -- script arguments, functions, source, exit statuses. Statements only. *)
 From Cicada Require Import Base.Chars Base.Peg Gen.LocustGrammar Model.Script Model.ScriptAst Model.Args Model.ShellScript
-  Proofs.ArgsProofs Proofs.SetEProofs Proofs.ScriptProofs Proofs.ShellProofs Proofs.ShellCallsProofs Proofs.ShellFlagProofs Proofs.LocustParse Proofs.ShellTextProofs Proofs.ShellSourceProofs Proofs.LocustIndent Proofs.ShellIndentProofs.
+  Proofs.ArgsProofs Proofs.SetEProofs Proofs.ScriptProofs Proofs.ShellProofs Proofs.ShellCallsProofs Proofs.ShellFlagProofs Proofs.LocustParse Proofs.ShellTextProofs Proofs.ShellSourceProofs Proofs.LocustIndent Proofs.ShellIndentProofs Proofs.ShellRefEqProofs.
 From Coq Require Import ZArith String Ascii.
 
 Definition S2 (s : string) : str := map N_of_ascii (list_ascii_of_string s).
@@ -787,6 +787,13 @@ Proof.
   - vm_compute. reflexivity.
 Qed.
 
+(** 3k. The two references agree (round 9c; Proofs/ShellRefEqProofs.v): from the flag ON, the flag-state
+    reference [refl] executes exactly [upto_fail] of the inlined sequence [unfold], keeps the flag on, and its
+    status is that of the first failing command (0 if none) -- so 3f is the flag-on reading of 3g. *)
+Theorem C15_refl_is_upto_fail : forall ext rt fuel ls cmds, unfold rt fuel ls = Some cmds ->
+  refl ext rt fuel ls true 0%Z = Some (true, upto_fail ext cmds, fail_status ext cmds).
+Proof. exact refl_is_upto_fail. Qed.
+
 (** The property, in full, and its refutation on the faithful model (what is left: a token
     holding a newline is not expanded -- first clause, stated for ALL tokens). *)
 Definition C15_full : Prop :=
@@ -863,6 +870,7 @@ Print Assumptions C15_sete_rest_of_body.
 Print Assumptions C15_sete_calls_trace.
 Print Assumptions C15_sete_calls_script.
 Print Assumptions C15_first_failure.
+Print Assumptions C15_refl_is_upto_fail.
 Print Assumptions C15_indented_text_parsed.
 Print Assumptions C15_tab_ok_indented.
 Print Assumptions C15_sete_calls_text_indented.
